@@ -22,7 +22,7 @@ ASSUMPTIONS = [
 BOUNDS = {"quick": "abc explicit/generated, at explicit, conn1s/abc a3, conn2/abc generated/explicit/root (str + variable leaves), closure/ab, all 1..2-rule configurators",
           "thorough": "quick + abt, abct, diamonds, conn2s/abc, conn2/abcd, 3-rule configurators"}
 QUICK = ["abc/explicit", "abc/generated", "at/explicit", "conn1s/abc/generated/a3", "conn1/abcd/explicit/a3", "conn2/abc/generated", "conn2/abc/explicit",
-         "conn2/abc/root", "closure/ab/generated", "mix3/abtn/explicit", "atmostneg/generated", "atmostneg/explicit", "ab/varnamed", "empty/ab"]
+         "conn2/abc/root", "closure/ab/generated", "mix3/abtn/explicit", "atmostneg/generated", "atmostneg/explicit", "ab/varnamed", "empty/ab", "wide/1"]
 THOROUGH = QUICK + ["abt/explicit", "abct/explicit", "diamond/explicit", "diamond/generated", "conn2s/abc/generated", "conn2/abcd/generated", "abt/generated"]
 
 
@@ -121,7 +121,7 @@ def check_plog(m, fam, k, way, acc):
     if leaf_set(back) != {(i, tuple(b)) for i, b in leaves.items()}:
         acc.violation(None, case, {"what": "leaf variables / bounds changed", "model": show(m), "json": doc, "got": sorted(map(repr, leaf_set(back)))})
         return
-    alphas = list(ref.assignments(leaves))
+    alphas = list(ref.assignments_dom(leaves, 4))
     want = [(ref.truth(m, a) if m[0] == 'N' else ref.connective(m, a)) for a in alphas]
     try:
         got = [back.evaluate(a).as_tuple() for a in alphas]
